@@ -108,7 +108,8 @@ func zxC15ProcessInserts() {
 		{i1, i2, al, fl, i3},      // last insert only reaches disk with the stop flush
 		{i1, zxMsg{kind: "skip", seq: 15}, al, fl, i2, fl},
 	}
-	script := scripts[vrtShape("script", len(scripts))]
+	scriptIdx := vrtShape("script", len(scripts))
+	script := scripts[scriptIdx]
 	altered := false
 	var inserts []zxMsg
 	for _, m := range script {
@@ -181,7 +182,7 @@ func zxC15ProcessInserts() {
 	if !crashed {
 		vrtAssert(got.offs == inserts[len(inserts)-1].seq, "after a clean stop everything processed is on disk")
 	}
-	vrtAssert(zxMapEq(got.a, want.a), "field a on disk = fold of exactly the inserts up to the recovered offset (script "+zxItoa(vrtShape("script", len(scripts)))+", crash step "+zxItoa(crashAt)+")")
+	vrtAssert(zxMapEq(got.a, want.a), "field a on disk = fold of exactly the inserts up to the recovered offset (script "+zxItoa(scriptIdx)+", crash step "+zxItoa(crashAt)+")")
 	vrtAssert(zxMapEq(got.b, want.b), "field b on disk = fold of exactly the inserts processed after the alteration, up to the recovered offset (crash step "+zxItoa(crashAt)+")")
 	vrtReach("P")
 }
